@@ -164,6 +164,8 @@ pub fn catalogue() -> Vec<(String, String)> {
     add("empty-contracts", "pragma solidity 0.8.17;\ncontract A {}\ninterface I {}\nlibrary L {}\nabstract contract B {}\ncontract D is A, B {}\n;;\n".to_string());
     add("interface-and-abstract", "pragma solidity 0.8.17;\ninterface I { function f(bytes memory a) external; function g() external payable; }\nabstract contract B { function h(string memory s) public virtual; function _i() internal virtual; constructor() {} }".to_string());
     add("unicode", "pragma solidity 0.8.17;\ncontract C { string s = unicode\"héllo 合约\"; string t = \"é\"; function f() public returns (string memory) { require(bytes(s).length > 0, unicode\"ошибка: строка слишком длинная для тридцати двух\"); return s; } }".to_string());
+    add("unicode-identifiers", "pragma solidity 0.8.0;\ncontract Überweisung { uint256 private größe; address internal _empfänger; uint256 public _zähler; function überweisen(uint256 betrag) internal returns (uint256) { require(betrag > 0 && betrag <= größe, unicode\"éééééééééééééééé\"); größe = größe - betrag * 2; return größe; } function _ändern(uint256 neu) external { größe = neu; } function 合约(uint256[] memory 数组) public { for (uint256 i = 0; i < 数组.length; i++) { größe++; } } constructor() { _empfänger = msg.sender; } }".to_string());
+    add("unicode-identifiers-free", "pragma solidity 0.7.6;\nfunction ñandú(uint256 ä) pure returns (uint256) { return ä * 2; }\ncontract Ü { function _é() public {} function è() private {} }".to_string());
     add("strings", "pragma solidity 0.8.17;\ncontract C { function f(bool a) public { require(a, \"\"); require(a, \"a\" \"b\"); require(a, hex\"00\"); require(\"s\", a); require(a, 'single quoted string that is longer than thirty-two bytes'); require(); revert(\"x\"); } }".to_string());
     add("hex-and-address-literals", "pragma solidity 0.8.17;\ncontract C { bytes b = hex\"00ff\" hex\"11\"; address a = address\"5GBWmgdFAMqm8ZgAHGobqDqX6tjLxJhv53ygjNtaaAn3sjeZ\"; function f() public { b = hex\"\"; } }".to_string());
     add("selfdestruct-shapes", "pragma solidity 0.8.17;\ncontract C { address o; function a() public { selfdestruct(); } function b() external { suicide(o, o); } function c() public { selfdestruct(payable(msg.sender)); } function d() public onlyX { selfdestruct(payable(o)); } function e() public { require(); selfdestruct(payable(o)); } function f() { selfdestruct(payable(o)); } }\nfunction g() { selfdestruct(payable(address(0))); }".to_string());
